@@ -35,7 +35,8 @@ RULE = ("Shards = (map, option combination) over all non-empty .xodr files of as
         "Hypothesis-drawn probe points (anchor = centreline, boundary, vertex, bounding box of a "
         "random element of a random class, or the seam between two adjacent top-level elements; "
         "offset = none / 1e-6 / up to 2 x tolerance / up to 6 m / up to 50 m in a random direction), "
-        "parse-vs-cache scenarios (reload, one-byte-changed map, changed options, rewritten cache) "
+        "parse-vs-cache scenarios drawn from a harness-owned random.Random (reload, fromPickle, "
+        "one-byte-changed map, one boolean then one numeric option changed, rewritten cache) "
         "and mutated maps (numeric attribute x (1 +- 1 %), <link> removed, lane id duplicated).  "
         "Non-trivial = the network has >= 1 intersection, or a probe point lies in >= 2 overlapping "
         "elements or within max(tolerance, 1 mm) of an element boundary; distinct = SHA-1 of the "
@@ -47,6 +48,9 @@ ASSUMPTIONS = [
     "tolerant pass tests a 64-gon inscribed in the tolerance circle), are not judged",
     "children may stick out of parents by 2 x tolerance + 0.01 m (two independent Douglas-Peucker "
     "simplifications within `tolerance` each, plus the parser's fixed 0.01 m / 1e-6 m buffers)",
+    "the sign of a lane's direction is anchored independently of its centreline by the "
+    "LinearElement docstring (left edge on the left, right edge on the right, both running "
+    "forward), judged on 40-60 % chords of lanes and lane sections only when both edges agree",
     "a map/option combination on which the parser raises (including the construction-time "
     "assertions of roads.py) builds no network and is outside the statement: classed, not judged",
     "Network.fromOpenDrive is wrapped by a call counter (observation only) to tell a cache load "
@@ -256,17 +260,12 @@ def judge_probes(net, ix, probes, out, ctx):
     return nontrivial
 
 
-_SEAMS = {}
-
-
 def seams(net, ix):
     """Pairs of top-level elements of different classes that touch: the generator aims probe
     points at their seam, where the documented priority of the tolerant pass matters."""
-    k = id(net)
-    if k not in _SEAMS:
+    if getattr(ix, "seams", None) is None:
         import shapely
 
-        _SEAMS.clear()
         tops = list(net.intersections) + list(net.roads) + list(net.shoulders) + \
             list(net.sidewalks)
         polys = [e.polygons for e in tops]
@@ -275,11 +274,11 @@ def seams(net, ix):
             tree = shapely.STRtree(polys)
             reach = max(float(net.tolerance), 0.01)
             for i, p in enumerate(polys):
-                for j in tree.query(p.buffer(reach), predicate="intersects"):
+                for j in sorted(tree.query(p.buffer(reach), predicate="intersects")):
                     if j > i and type(tops[i]) is not type(tops[j]):
                         res.append((tops[i], tops[j]))
-        _SEAMS[k] = res
-    return _SEAMS[k]
+        ix.seams = res
+    return ix.seams
 
 
 def probe_xy(net, ix, d):
@@ -633,11 +632,13 @@ def one_option_changed(rng, opts, keys):
 def gen_cache_case(rng, rel, opts):
     """Cache scenarios are few and expensive: they are drawn from a random.Random owned by the
     harness (a Hypothesis run of one or two examples would only ever produce the minimal one).
-    Two stale-option variants per case: a numeric option changed, then a boolean one."""
+    Two stale-option variants per case, each differing from the options the cache on disk
+    was written for in exactly one option: first a boolean one, then a numeric one."""
+    first = one_option_changed(rng, opts, ("fill_gaps", "fill_intersections",
+                                           "elide_short_roads"))
+    opts2 = [first, one_option_changed(rng, first, ("tolerance", "tolerance", "ref_points"))]
     return {"kind": "cache", "map": rel, "opts": opts,
-            "opts2": [one_option_changed(rng, opts, ("tolerance", "tolerance", "ref_points")),
-                      one_option_changed(rng, opts, ("fill_gaps", "fill_intersections",
-                                                     "elide_short_roads"))],
+            "opts2": opts2,
             "edit": rng.randrange(10 ** 6),
             "probes": [rand_probe(rng) for _ in range(8)]}
 
